@@ -132,6 +132,9 @@ type c15 struct {
 	steps     []c15Step
 	cur       *c15Step
 	foreign   types.PrivateKey
+	// accounts whose attachment list (>= 3 pools) lost a pool that was not the
+	// last one since their last paid RPC
+	reordered map[proto4.Account]bool
 }
 
 func (c *c15) key(kind byte, i int) types.PrivateKey {
@@ -532,7 +535,35 @@ func (c *c15) step(st c15Step) error {
 			if tok.HostKey != hostKey || !tok.ValidUntil.After(time.Now()) || !types.PublicKey(tok.Account).VerifyHash(tok.SigHash(), tok.Signature) {
 				c.report("debit-with-invalid-token:"+kind, "an account was debited on the strength of an invalid token", map[string]any{"token": tok})
 			}
+			// how many balances does this debit reach into, per the model?
+			sources, left := 0, usage.RenterCost()
+			for _, b := range append([]types.Currency{c.led.acc[acc]}, poolBalances(c.led, acc)...) {
+				if left.IsZero() {
+					break
+				}
+				if !b.IsZero() {
+					sources++
+				}
+				if b.Cmp(left) >= 0 {
+					left = types.ZeroCurrency
+				} else {
+					left = left.Sub(b)
+				}
+			}
+			fromPools := c.led.acc[acc].Cmp(usage.RenterCost()) < 0
 			want := c.led.debit(acc, usage.RenterCost())
+			if ev.Err == "" && want {
+				if sources >= 2 {
+					c.r.Count("debits_spanning_balances", 1)
+				}
+				if fromPools {
+					c.r.Count("debits_drawing_on_pools", 1)
+					if c.reordered[acc] {
+						c.r.Count("detaches_of_non_last_pool_followed_by_paid_rpc", 1)
+						delete(c.reordered, acc)
+					}
+				}
+			}
 			if want != (ev.Err == "") {
 				c.report("debit-decision-wrong:"+kind, fmt.Sprintf("ledger says sufficient=%v but the Contractor answered %q", want, ev.Err), map[string]any{"cost": hs(usage.RenterCost())})
 			}
@@ -577,6 +608,16 @@ func (c *c15) step(st c15Step) error {
 			}
 			if ev.Err == "" {
 				for _, d := range ev.Detach {
+					if list := c.led.att[d.Account]; len(list) >= 3 {
+						if i := slices.Index(list, d.Pool); i >= 0 && i < len(list)-1 {
+							if c.reordered == nil {
+								c.reordered = map[proto4.Account]bool{}
+							}
+							c.reordered[d.Account] = true
+							c.r.Count("detaches_of_non_last_pool", 1)
+							c.r.Distinct(fmt.Sprintf("detach:position-%d-of-%d", i, len(list)))
+						}
+					}
 					c.led.detach(d.Account, d.Pool)
 				}
 				c.r.Count("detachments", len(ev.Detach))
@@ -797,7 +838,48 @@ func (c *c15) ledgerSnapshot() ledgerSnap {
 	return s
 }
 
+func poolBalances(l *ledger, a proto4.Account) []types.Currency {
+	var out []types.Currency
+	for _, p := range l.att[a] {
+		out = append(out, l.pool[p])
+	}
+	return out
+}
+
 func (c *c15) compareLedger(s ledgerSnap) {
+	// a paid RPC that took the right total from the wrong balances: the sum over
+	// all balances agrees with the ledger, the distribution does not
+	if st := c.cur; st != nil && (st.Op == "read" || st.Op == "write" || st.Op == "verify") {
+		var host, model types.Currency
+		wrong := []string{}
+		for i, a := range s.accs {
+			host, model = host.Add(s.acc[a]), model.Add(c.led.acc[a])
+			if !s.acc[a].Equals(c.led.acc[a]) {
+				wrong = append(wrong, fmt.Sprintf("account %d: host %v H, ledger %v H", i, hs(s.acc[a]), hs(c.led.acc[a])))
+			}
+		}
+		for i, p := range s.pools {
+			host, model = host.Add(s.pool[p]), model.Add(c.led.pool[p])
+			if !s.pool[p].Equals(c.led.pool[p]) {
+				wrong = append(wrong, fmt.Sprintf("pool %d: host %v H, ledger %v H", i, hs(s.pool[p]), hs(c.led.pool[p])))
+			}
+		}
+		if len(wrong) > 0 && host.Equals(model) {
+			order := []int{}
+			for _, p := range c.led.att[c.acct(st.Acc[0])] {
+				order = append(order, slices.Index(s.pools, p))
+			}
+			c.report("debited-wrong-pool:"+st.Op, "a paid RPC took the right amount from the wrong balances (own balance first, then pools in attachment order; a detach keeps the order of the rest, a re-attach goes to the end)", map[string]any{"differences": wrong, "attachment_order_per_ledger": order})
+			for _, a := range s.accs {
+				c.led.acc[a] = s.acc[a]
+			}
+			for _, p := range s.pools {
+				c.led.pool[p] = s.pool[p]
+			}
+			c.r.Count("ledger_comparisons", 1)
+			return
+		}
+	}
 	for i, a := range s.accs {
 		if !s.acc[a].Equals(c.led.acc[a]) {
 			c.report("ledger-mismatch:account", fmt.Sprintf("host balance of account %d is %v H, ledger says %v H", i, hs(s.acc[a]), hs(c.led.acc[a])), nil)
@@ -1054,6 +1136,111 @@ func (c *c15) runAborts() error {
 	return nil
 }
 
+// poolIndex maps a pool account back to its index in the worker's key table.
+func (c *c15) poolIndex(p proto4.Account) int {
+	for i := range c.poolKeys {
+		if c.pool(i) == p {
+			return i
+		}
+	}
+	return -1
+}
+
+// runPoolOrder gives a fresh account 3..5 pools with distinct balances, several
+// of them too small to pay for one RPC alone, and then interleaves PRNG
+// detaches (first / middle / last / two at once), re-attaches (which go to the
+// end of the order), attaches of new pools and top-ups with paid RPCs. After
+// every step every balance is compared with the ledger, whose attachment list
+// is order preserving.
+func (c *c15) runPoolOrder(steps int) error {
+	rng := c.rng
+	a := len(c.accKeys)
+	acct := c.acct(a)
+	k := 3 + rng.IntN(3)
+	base := len(c.poolKeys)
+	c.pool(base + k + 2) // k attached from the start, three spares to attach later
+	readCost := c.prices.RPCReadSectorCost(64).RenterCost()
+	frac := func(i int) types.Currency { // distinct, mostly below one read
+		return readCost.Mul64(uint64(2 + 3*i)).Div64(7).Add(types.NewCurrency64(uint64(11 * (i + 1))))
+	}
+	for i := 0; i < k+3; i++ {
+		if err := c.step(c15Step{Op: "repl-pool", Pool: []int{base + i}, Amounts: []string{hs(frac(i % 4))}, Contract: i}); err != nil {
+			return err
+		}
+	}
+	// attach the first k, partly as one batch
+	var accs, pools []int
+	for i := 0; i < k; i++ {
+		accs, pools = append(accs, a), append(pools, base+i)
+	}
+	if err := c.step(c15Step{Op: "attach", Acc: accs[:2], Pool: pools[:2]}); err != nil {
+		return err
+	}
+	for i := 2; i < k; i++ {
+		if err := c.step(c15Step{Op: "attach", Acc: []int{a}, Pool: []int{base + i}}); err != nil {
+			return err
+		}
+	}
+	paid := func() c15Step {
+		st := c.debitOps()[[]int{0, 0, 0, 1}[rng.IntN(4)]]
+		st.Acc = []int{a}
+		return st
+	}
+	for i := 0; i < steps; i++ {
+		list := c.led.att[acct]
+		var st c15Step
+		switch v := rng.IntN(20); {
+		case v < 6 && len(list) >= 3:
+			// detach: first, middle, last, or two at once; then pay
+			var pos []int
+			switch rng.IntN(5) {
+			case 0:
+				pos = []int{0}
+			case 1, 2:
+				pos = []int{1 + rng.IntN(len(list)-2)}
+			case 3:
+				pos = []int{len(list) - 1}
+			default:
+				pos = []int{0, len(list) - 2}
+			}
+			st = c15Step{Op: "detach", Signer: []string{"account", "pool"}[rng.IntN(2)]}
+			for _, p := range pos {
+				st.Acc, st.Pool = append(st.Acc, a), append(st.Pool, c.poolIndex(list[p]))
+			}
+			if err := c.step(st); err != nil {
+				return err
+			}
+			st = paid()
+		case v < 10:
+			// (re-)attach a pool that is not attached: it goes to the end
+			var free []int
+			for j := base; j < base+k+3; j++ {
+				if !slices.Contains(list, c.pool(j)) {
+					free = append(free, j)
+				}
+			}
+			if len(free) == 0 {
+				st = paid()
+				break
+			}
+			st = c15Step{Op: "attach", Acc: []int{a}, Pool: []int{free[rng.IntN(len(free))]}}
+		case v < 13:
+			// top a pool up by a fraction of a read so that debits keep spanning pools
+			j := base + rng.IntN(k+3)
+			st = c15Step{Op: "repl-pool", Pool: []int{j}, Amounts: []string{hs(c.led.pool[c.pool(j)].Add(frac(rng.IntN(4))))}, Contract: i}
+		case v < 14:
+			st = c15Step{Op: "fund", Acc: []int{a}, Amounts: []string{hs(frac(rng.IntN(2)))}, Contract: i}
+		default:
+			st = paid()
+		}
+		if err := c.step(st); err != nil {
+			return err
+		}
+	}
+	c.r.Count("pool_order_scenarios", 1)
+	return nil
+}
+
 func (c *c15) runRandom(n int) error {
 	// population: 4 accounts, 3 pools, funded and partly attached
 	a0, p0 := len(c.accKeys), len(c.poolKeys)
@@ -1144,6 +1331,9 @@ func runC15(r *mon.Run, replay string) {
 	r.Floor("aborted_after_request_complete_write", 4)
 	r.Floor("aborted_after_request_complete_read", 4)
 	r.Floor("funded_count_scenarios", 6)
+	r.Floor("detaches_of_non_last_pool_followed_by_paid_rpc", 25)
+	r.Floor("debits_spanning_balances", 60)
+	r.Floor("pool_order_scenarios", 8)
 	var wg sync.WaitGroup
 	workers := r.Pick(4, 10)
 	for w := 0; w < workers; w++ {
@@ -1164,6 +1354,11 @@ func runC15(r *mon.Run, replay string) {
 				}
 				if w >= 1 && w < 3 {
 					if err := c.runAborts(); err != nil {
+						return err
+					}
+				}
+				for i := 0; i < r.Pick(3, 12); i++ {
+					if err := c.runPoolOrder(40); err != nil {
 						return err
 					}
 				}
